@@ -36,7 +36,7 @@ var solvers = []solverSpec{
 // buildQuery renders hyp /\ not goal.
 func (e *Engine) buildQuery(o *Obligation, getValues []*Term) string {
 	fs := []*Term{o.hyp, Not(o.goal)}
-	ax := e.expandQuantifiers(fs)
+	ax := e.expandQuantifiers(fs, []*Term{Not(o.goal)})
 	p := NewPrinter()
 	var body strings.Builder
 	for _, f := range fs {
